@@ -195,3 +195,11 @@ META["C23"] = dict(
          "for every exemption count a context accepts; periodic polynomials are evaluated at every step.",
     note="Exhaustive inside the stated bounds for (n, e) and degree declarations; periodic columns sampled.",
 )
+META["C28"] = dict(
+    technique="differential monitor against reference polynomial evaluation and a definitional row-commitment + cross-run digest checker over builds/thread counts + TSan",
+    text="Matrix LDE outputs are compared cell by cell with reference evaluation of each column polynomial at the domain "
+         "point of the row; row- and column-major routes are compared with each other; commitments are recomputed from the "
+         "verified rows with the documented partition rule; the same cases run serially and concurrently and an offline "
+         "checker requires identical output digests.",
+    note="Above 256 rows only 48 rows per matrix are compared with the reference; digests extend the serial result to parallel runs.",
+)
